@@ -2,7 +2,22 @@
 C06  Oblivious transfer delivers exactly the chosen label.
 
 Property theorems only; helper lemmas are in Proofs/{Iknp,Cot,CoRsa}.lean,
-the models in Model/{Iknp,Cot,Co,RsaOt}.lean.
+the models in Model/{Iknp,Cot,Co,RsaOt}.lean (theorems) and
+Model/{CoBytes,P256,Sha256}.lean (executed only: the byte-level instance of
+the Chou-Orlandi model on P-256 that the driver compares with the real
+`ot.CO`; no theorem depends on P-256 or SHA-256).
+
+Theorems (all audited on every run: propext, Classical.choice, Quot.sound only)
+  IKNP      C06_iknp_transpose, C06_iknp_label_corr, C06_iknp_label_corr_malicious,
+            C06_iknp_bits_corr (every n; /repo HEAD since 564d319), C06_iknp_bits_corr_eval,
+            C06_iknp_bits_old_fails / _old_witness (about the named pre-fix
+            definition `receiveBitsOld` only), C06_iknp_session
+  COT/ROT   C06_cot_delivers, C06_rot_consistent, C06_cot_end_to_end, C06_rot_end_to_end
+  CO        C06_co_masks_agree, C06_co_delivers (HEAD helpers `encryptO`/`decryptO`,
+            incl. the on-curve checks of 68f93f2 / 0e7671a)
+  composed  C06_iknp_over_co (COT over IKNP over Chou-Orlandi base OTs, roles reversed
+            in the base phase)
+  RSA       C06_rsa_key_recovered, C06_rsa_delivers
 
 Quantification.  IKNP: every family of PRG streams (`R0 R1 SS : column →
 position → byte`, hence every AES key and every PRG), every `Delta`, every
@@ -10,10 +25,11 @@ stream state in which the two parties are in step, every choice vector of
 every length (all n, all tails mod 8/64/128/512), every sequence of calls on
 one pair.  The only link between the parties is `BaseOK`: the base OTs
 delivered, i.e. the sender's stream `i` is the receiver's stream selected by
-`Delta.Bit(i)` (that is C06 for the base OT, proved below for CO and RSA in
-their own models).  COT/ROT: every block cipher `π`, every seed, every batch
-size.  CO: every commutative group with a scalar action and every KDF.  RSA:
-every modulus and exponent pair satisfying the RSA key relation.
+`Delta.Bit(i)`; `C06_iknp_over_co` discharges it from the Chou-Orlandi model.
+COT/ROT: every block cipher `π`, every seed, every batch size.  CO: every
+commutative group with a scalar action and every KDF (the executed instance is
+P-256 with SHA-256, compared byte for byte with Go).  RSA: every modulus and
+exponent pair satisfying the RSA key relation.
 -/
 import MpcVerif.Proofs.Iknp
 import MpcVerif.Proofs.Cot
@@ -253,22 +269,27 @@ theorem C06_co_masks_agree {G : Type} (Γ : Co.Group G) (g : G) (a b : Nat) (bit
   Co.masks_agree Γ g a b bit
 
 /-- `co_delivers`: `DecryptCOCiphertexts ∘ EncryptCOCiphertexts ∘ BuildCOChoices`
-returns the chosen label at every index, for every group, every KDF (the mask
-of index `i` is `kdf point i`: per-index domain separation), every `n`, all
-scalars and choice bits, provided no point is rejected by the on-curve check
-(`valid`; on P-256 this excludes only `b_i = 0`-type events of probability
-about 2⁻²⁵⁶, which make the real code return `ErrPointNotOnCurve`). -/
+(the /repo HEAD helpers, `Co.encryptO`/`Co.decryptO`, which are also what the
+driver executes on P-256 against the real `ot.CO` byte for byte) return the
+chosen label at every index, for every group, every KDF (the mask of index `i`
+is `kdf point i`: per-index domain separation), every `n`, all scalars and
+choice bits, provided no point is rejected by the on-curve check (`valid`; on
+P-256 this excludes only events such as `a = 0` or `b_i = 0` with choice 0, of
+probability about 2⁻²⁵⁶, on which the real code returns `ErrPointNotOnCurve` —
+exercised by the `co-bytes` correspondence). -/
 theorem C06_co_delivers {G : Type} (Γ : Co.Group G) (valid : G → Bool) (kdf : G → Nat → Label) (g : G) (a n : Nat)
     (scalars : Nat → Nat) (bits : Nat → Bool) (wires : Nat → Co.Wire)
-    (hA : valid (Γ.smul a g) = true)
-    (hP : ∀ i, i < n → valid (Co.choicePoint Γ g (Γ.smul a g) (scalars i) (bits i)) = true) :
-    ∃ cts, Co.encrypt Γ valid kdf (Co.senderSetup Γ g a) n
-        (fun i => Co.choicePoint Γ g (Co.senderSetup Γ g a).A (scalars i) (bits i)) wires = some cts ∧
+    (hA : valid (Co.senderSetupO Γ.ops g a).A = true)
+    (hI : valid (Co.senderSetupO Γ.ops g a).AaInv = true)
+    (hP : ∀ i, i < n →
+      valid (Co.choicePointO Γ.ops g (Co.senderSetupO Γ.ops g a).A (scalars i) (bits i)) = true) :
+    ∃ cts, Co.encryptO Γ.ops valid kdf (Co.senderSetupO Γ.ops g a) n
+        (fun i => Co.choicePointO Γ.ops g (Co.senderSetupO Γ.ops g a).A (scalars i) (bits i)) wires = some cts ∧
       cts.length = n ∧
-      (Co.decrypt Γ kdf (Co.senderSetup Γ g a).A n scalars bits cts).length = n ∧
-      ∀ i, i < n → (Co.decrypt Γ kdf (Co.senderSetup Γ g a).A n scalars bits cts).getD i 0#128 =
-        if bits i then (wires i).2 else (wires i).1 :=
-  Co.delivers Γ valid kdf g a n scalars bits wires hA hP
+      ∃ out, Co.decryptO Γ.ops valid kdf (Co.senderSetupO Γ.ops g a).A n scalars bits cts = some out ∧
+        out.length = n ∧
+        ∀ i, i < n → out.getD i 0#128 = if bits i then (wires i).2 else (wires i).1 :=
+  Co.deliversO Γ valid kdf g a n scalars bits wires hA hI hP
 
 /-- Non-vacuity: the integers mod 7 under addition are such a group. -/
 def zmod7 : Co.Group (Fin 7) where
@@ -283,9 +304,62 @@ def zmod7 : Co.Group (Fin 7) where
   smul_add := by intro n a b; generalize Fin.ofNat 7 n = m; revert m a b; decide
   smul_comm := by intro m n a; generalize Fin.ofNat 7 n = x; generalize Fin.ofNat 7 m = y; revert x y a; decide
 
-example : ∃ (Γ : Co.Group (Fin 7)) (valid : Fin 7 → Bool), valid (Γ.smul 3 1) = true ∧
-    valid (Co.choicePoint Γ 1 (Γ.smul 3 1) 2 true) = true :=
-  ⟨zmod7, fun x => x != 0, by decide, by decide⟩
+example : ∃ (Γ : Co.Group (Fin 7)) (valid : Fin 7 → Bool), valid (Co.senderSetupO Γ.ops 1 3).A = true ∧
+    valid (Co.senderSetupO Γ.ops 1 3).AaInv = true ∧
+    valid (Co.choicePointO Γ.ops 1 (Co.senderSetupO Γ.ops 1 3).A 2 true) = true :=
+  ⟨zmod7, fun x => x != 0, by decide, by decide, by decide⟩
+
+/-! ## IKNP / COT over Chou-Orlandi base OTs -/
+
+open Mpc.Cot in
+/-- `iknp_over_co`: COT on top of IKNP whose 128 base OTs are Chou-Orlandi.
+
+Roles (they are REVERSED in the base phase, as in `NewIKNPReceiver` /
+`NewIKNPSender`): the party that will be the IKNP/COT *receiver* draws the 128
+wire pairs `keys i = (k0_i, k1_i)` and acts as the CO **sender** (scalar `a`,
+`base.Send(wires)`); the party that will be the IKNP/COT *sender* holds `Delta`
+and acts as the CO **receiver** with choice bits `Delta.Bit(i)` and scalars
+`scalars i` (`base.Receive(flags, k)`), obtaining `base_i`.  The PRG streams
+are `prg` (any function of the key: every AES-CTR) applied to these labels.
+
+For every group, KDF, PRG, block cipher, seed, adversary mode, batch size and
+choice vector, if no CO point is rejected: the base phase delivers
+`base_i = k_{Delta.Bit(i), i}`, hence `BaseOK`; and the COT batch run on the
+freshly initialised pair delivers the sender's label selected by the choice
+bit at every position, leaving the pair in step for later batches. -/
+theorem C06_iknp_over_co {G : Type} (Γ : Co.Group G) (valid : G → Bool) (kdf : G → Nat → Label) (g : G) (a : Nat)
+    (scalars : Nat → Nat) (keys : Nat → Co.Wire) (delta : Label)
+    (hA : valid (Co.senderSetupO Γ.ops g a).A = true)
+    (hI : valid (Co.senderSetupO Γ.ops g a).AaInv = true)
+    (hP : ∀ i, i < K →
+      valid (Co.choicePointO Γ.ops g (Co.senderSetupO Γ.ops g a).A (scalars i) (labelBit delta i)) = true)
+    (prg : Label → Nat → Byte) (π : Label → Label → Label) (seed : Label) (mal : Bool) (b0 b1 : Label)
+    (wires : Array Cot.Wire) (flags : Array Bool) (hw : wires.size = flags.size) :
+    ∃ cts base,
+      Co.encryptO Γ.ops valid kdf (Co.senderSetupO Γ.ops g a) K
+        (fun i => Co.choicePointO Γ.ops g (Co.senderSetupO Γ.ops g a).A (scalars i) (labelBit delta i)) keys
+        = some cts ∧
+      Co.decryptO Γ.ops valid kdf (Co.senderSetupO Γ.ops g a).A K scalars (fun i => labelBit delta i) cts
+        = some base ∧
+      (∀ i, i < K → base.getD i 0#128 = if labelBit delta i then (keys i).2 else (keys i).1) ∧
+      BaseOK (fun i => prg (keys i).1) (fun i => prg (keys i).2) (fun i => prg (base.getD i 0#128)) delta ∧
+      ∃ rs' ss' o u,
+        runCall (fun i => prg (keys i).1) (fun i => prg (keys i).2) (fun i => prg (base.getD i 0#128)) delta
+          RecvSt.init SendSt.init (.labels mal flags b0 b1) = some (rs', ss', o, u) ∧
+        InStep rs' ss' ∧
+        ∃ cs, cotSend π delta seed o.sentL.toArray wires = some cs ∧
+          ∃ out, cotRecv π seed flags o.rcvdL.toArray cs = some out ∧ out.size = flags.size ∧
+            ∀ j, j < flags.size →
+              lget out j = if flags.getD j false then (wget wires j).2 else (wget wires j).1 := by
+  obtain ⟨cts, h1, _, base, h2, _, h3⟩ :=
+    Co.deliversO Γ valid kdf g a K scalars (fun i => labelBit delta i) keys hA hI hP
+  have hb : BaseOK (fun i => prg (keys i).1) (fun i => prg (keys i).2) (fun i => prg (base.getD i 0#128)) delta := by
+    intro i hi p
+    show prg (base.getD i 0#128) p = _
+    rw [h3 i hi]
+    split <;> rfl
+  exact ⟨cts, base, h1, h2, h3, hb,
+    C06_cot_end_to_end π _ _ _ delta seed hb RecvSt.init SendSt.init InStep.init mal b0 b1 wires flags hw⟩
 
 /-! ## RSA OT -/
 
